@@ -109,9 +109,42 @@ def _visit_order(f):
     return order, first
 
 
+def _roles(prog):
+    """The functions of the comment-link patcher found by what they do (not by name): the resolver performs the scoped lookup and queues the
+    result, poppers take queue entries back out, compute/apply are the two traversals of a DocComment's parts."""
+    if getattr(prog, '_c16_roles', None):
+        return prog._c16_roles
+    fns = [f for f in prog.fns.values() if f.path.startswith(CLP) and '{closure' not in f.path]
+    resolver = [f for f in fns if any(c.name() == 'find_node_with_scope' for c in f.calls())]
+    poppers = [f for f in fns if any(c.name() == 'pop_front' and 'link_patches' in vexpr(f, c.args[0]) for c in f.calls())]
+    visitors = [f for f in fns if set(_visit_order(f)[0]) & set(FIELDS)]
+    if len(resolver) != 1:
+        raise AnchorMissing('exactly one function of comment_link_patcher calling find_node_with_scope (found %d)' % len(resolver))
+    cg = prog.callgraph()
+
+    def reaches(a, targets):
+        seen, todo = {a}, [a]
+        while todo:
+            x = todo.pop()
+            if x in targets:
+                return True
+            for y in cg.get(x, ()):
+                if y.startswith(CLP) and y not in seen:
+                    seen.add(y)
+                    todo.append(y)
+        return False
+    compute = [f for f in visitors if reaches(f.path, {resolver[0].path})]
+    apply_ = [f for f in visitors if reaches(f.path, {g.path for g in poppers})]
+    if len(compute) != 1 or len(apply_) != 1 or compute[0] is apply_[0]:
+        raise AnchorMissing('one computing and one applying traversal of DocComment in comment_link_patcher (found %d / %d)' % (len(compute), len(apply_)))
+    prog._c16_roles = dict(resolver=resolver[0], poppers=poppers, compute=compute[0], apply=apply_[0],
+                           between=[f for f in fns if f is not compute[0] and f is not resolver[0] and resolver[0].path in cg.get(f.path, ())])
+    return prog._c16_roles
+
+
 def r_traversal_order_agrees(r, prog):
-    c = prog.fn(CLP + "CommentLinkPatcher::<'_>::compute_patches_for")
-    a = prog.fn(CLP + "CommentLinkPatcher::<'_>::apply_patches")
+    c = _roles(prog)['compute']
+    a = _roles(prog)['apply']
     oc, _ = _visit_order(c)
     oa, _ = _visit_order(a)
     if set(oc) != set(FIELDS) or set(oa) != set(FIELDS):
@@ -124,22 +157,27 @@ def r_traversal_order_agrees(r, prog):
 
 
 def r_one_entry_per_link(r, prog):
-    rl = prog.fn(CLP + "CommentLinkPatcher::<'_>::resolve_link")
+    rl = _roles(prog)['resolver']
     pushes = [c for c in rl.calls() if c.name() == 'push_back' and 'link_patches' in vexpr(rl, c.args[0])]
     rets = rl.return_blocks()
     if len(pushes) == 1 and must_pass(rl, 0, rets, [pushes[0].bb]) and loop_of(rl, pushes[0].bb) is None:
         r.ok('resolve_link pushes exactly one queue entry on every path')
     else:
         r.finding('queue-push-count', rl.span, 'resolve_link does not push exactly one entry onto link_patches on every path (%d push site(s))' % len(pushes))
-    # every link visited by the compute side goes through resolve_link
-    ri = prog.fn(CLP + "CommentLinkPatcher::<'_>::resolve_links_in")
-    if [c for c in ri.calls() if c.name() == 'resolve_link']:
-        r.ok('resolve_links_in resolves every Link component through resolve_link')
+    # every link visited by the compute side goes through the resolver, and nothing else queues entries
+    roles = _roles(prog)
+    others = [f.path for f in prog.fns.values() if f.path.startswith(CLP) and f is not rl
+              and any(c.name() in ('push_back', 'push_front', 'insert', 'extend', 'append') and 'link_patches' in vexpr(f, c.args[0]) for c in f.calls() if c.args)]
+    callers = [roles['compute']] + roles['between']
+    if others:
+        r.finding('queue-filled-elsewhere', rl.span, 'link_patches also receives entries in %s' % others)
+    elif any(c.name() == rl.name for g in callers for c in g.calls()):
+        r.ok('the computing traversal resolves Link components through %s (%s)' % (rl.name, ', '.join(g.name for g in callers)))
     else:
-        r.finding('links-not-resolved', ri.span, 'resolve_links_in does not call resolve_link')
+        r.finding('links-not-resolved', roles['compute'].span, 'the computing traversal does not reach %s' % rl.name)
     # apply side: one pop per link site
-    for fp in ("CommentLinkPatcher::<'_>::apply_patches", "CommentLinkPatcher::<'_>::patch_links_in"):
-        f = prog.fn(CLP + fp)
+    for f in roles['poppers']:
+        fp = f.path
         pops = [c for c in f.calls() if c.name() == 'pop_front' and 'link_patches' in vexpr(f, c.args[0])]
         writes = [(bb, lhs) for bb, j, lhs, rv, s in f.assigns() if [x.get('n') for x in place_projs(lhs) if isinstance(x, dict) and 'f' in x][-1:] == ['link']
                   and not f.blocks[bb].get('cleanup')]
@@ -151,7 +189,7 @@ def r_one_entry_per_link(r, prog):
 
 
 def r_link_scope(r, prog):
-    rl = prog.fn(CLP + "CommentLinkPatcher::<'_>::resolve_link")
+    rl = _roles(prog)['resolver']
     fs = [c for c in rl.calls() if c.name() == 'find_node_with_scope']
     if not fs:
         raise AnchorMissing('find_node_with_scope in resolve_link')
